@@ -2,10 +2,27 @@ _COMMON = [
     'only executions produced by this run are judged (runtime monitoring, not proof)',
     'gcc 12 / x86-64 LP64 little-endian, A_SIZE_POINTER=8; library rebuilt from /repo working tree with -fsanitize=address,undefined',
 ]
+import os as _os, re as _re
+
+
+def _minalign(hdr):
+    """the node alignment the header documents as sufficient for the packed parent word, or None"""
+    try:
+        t = open(_os.path.join(_os.environ.get('VF_REPO', '/repo'), 'include', 'a', hdr)).read()
+    except OSError:
+        return []
+    m = _re.search(r'must be (\d+)-byte aligned', t)
+    return [int(m.group(1))] if m and int(m.group(1)) in (2, 4, 8) else []
+
+
 SPEC = dict(
     harness=['h_tree.c'], cflags=['-DVF_MODE_ITER'],
-    configs=lambda tier: [dict(name='avl'), dict(name='rbt', hflags=['-DVF_TREE_RBT'])] + ([dict(name='avl-unpacked', cflags=['-DA_SIZE_POINTER=1']), dict(name='rbt-unpacked', hflags=['-DVF_TREE_RBT'], cflags=['-DA_SIZE_POINTER=1'])]),
-    parallel_configs=4,
+    configs=lambda tier: [dict(name='avl'), dict(name='rbt', hflags=['-DVF_TREE_RBT'])] + ([dict(name='avl-unpacked', cflags=['-DA_SIZE_POINTER=1']), dict(name='rbt-unpacked', hflags=['-DVF_TREE_RBT'], cflags=['-DA_SIZE_POINTER=1']),
+                          dict(name='avl-clang', libcc='clang'), dict(name='rbt-clang', hflags=['-DVF_TREE_RBT'], libcc='clang'),
+                          dict(name='avl-unpacked-uchar', cflags=['-DA_SIZE_POINTER=1', '-funsigned-char'])] +
+                         [dict(name='avl-minalign', cflags=['-fno-sanitize=alignment'], hflags=['-DVF_MINALIGN=%d' % n]) for n in _minalign('avl.h')] +
+                         [dict(name='rbt-minalign', cflags=['-fno-sanitize=alignment'], hflags=['-DVF_TREE_RBT', '-DVF_MINALIGN=%d' % n]) for n in _minalign('rbt.h')]),
+    parallel_configs=9,
     workers={'quick': 12, 'thorough': 16},
     level='exploration',
     rule='for every tree shape reachable through the library with <= N nodes (AVL N=15 quick/22 thorough; red-black N=12/17) and for random trees up '
